@@ -112,7 +112,7 @@ MUTANTS = {
     ],
     "C19": [
         ("terminator_check_removed", [("serving.py", "                if terminator not in (b\"\\n\", b\"\\r\\n\", b\"\\r\"):\n                    raise OSError(\"Missing chunk terminating newline\")", "                pass")]),
-        ("chunked_framing_for_head", [("serving.py", "                        or environ[\"REQUEST_METHOD\"] == \"HEAD\"\n", "")]),
+        ("chunked_framing_for_head", [("serving.py", "                        or self.command == \"HEAD\"\n", "")]),
         ("residual_length_not_decremented", [("serving.py", "                buf[read : read + n] = data\n                self._len -= n", "                buf[read : read + n] = data\n                self._len -= n if n > 1 else 0")]),
         ("underscore_headers_kept", [("serving.py", "            if \"_\" in key:\n                continue\n", "")]),
         ("repeated_headers_overwrite", [("serving.py", "                if key in environ:\n                    value = f\"{environ[key]},{value}\"", "                if False:\n                    value = f\"{environ[key]},{value}\"")]),
